@@ -15,8 +15,12 @@ package lib
 //	S:<hex>     well-behaved session: send only (a chunk has no answer)
 //	O<k>        open hostile connection k
 //	D<k>:<hex>  send on k (one write; writes are separated so that each is one read)
+//	Q<k>:<hex>  probe of a connection that is expected to be ended for claiming a key in use (no replay when it is)
 //	P<k>:<hex>  probe: send a valid frame on k and wait for its answer / the server's close / silence
 //	F<k>        close k (FIN)        R<k>  reset k (SO_LINGER 0)
+//	C:<hex>     well-behaved session: stream these frames from a goroutine while the following tokens run
+//	J           wait until every frame of the stream has been answered               -> one more g entry
+//	V:<path-hex>:<content-hex>  close the well-behaved session, then the file must be on disk (attachment) -> v=1
 //	W           wait 60 ms (teardown of a connection that was just closed)
 //	A:<hex>     accept check: a NEW connection, send, wait for the answer, close  -> a=<hex>
 //
@@ -161,6 +165,7 @@ type C10Child struct {
 	Kind   string // "808" | "att"
 	Param  string // pa | dialect
 	Addr   string
+	Cwd    string // working directory of the child (the default attachment file handler stores under it)
 	cmd    *exec.Cmd
 	stderr *c10LockedBuf
 	done   chan struct{}
@@ -255,7 +260,7 @@ func c10StartChildLimits(kind, param string, limitMB, nofile int) (*C10Child, er
 		addr := c10FreeAddr()
 		cwd := filepath.Join(c10ContainDir(), fmt.Sprintf("%s-%s-%d", kind, param, time.Now().UnixNano()))
 		os.MkdirAll(cwd, 0o755)
-		c := &C10Child{Kind: kind, Param: param, Addr: addr, stderr: &c10LockedBuf{}, done: make(chan struct{})}
+		c := &C10Child{Kind: kind, Param: param, Addr: addr, Cwd: cwd, stderr: &c10LockedBuf{}, done: make(chan struct{})}
 		c.cmd = exec.Command(exe)
 		c.cmd.Env = append(os.Environ(), "VERIFH_C10_CHILD="+kind+","+addr+","+param, "VERIFH_C10_CHILD_CWD="+cwd,
 			"VERIFH_C10_RLIMIT_MB="+strconv.Itoa(limitMB), "VERIFH_C10_NOFILE="+strconv.Itoa(nofile))
@@ -466,14 +471,19 @@ func c10ExpectAtt(dialect int, segs [][]byte) (answer bool) {
 // c10ContainOp plays the script; when an awaited answer did not come within the timeout although the process is
 // alive (a stall of the machine: the default file handler fsyncs its log after every event), the script is played
 // again on fresh connections, up to 3 times; only what persists is reported.
+// A crash is never forgiven: an attempt during which the process died is final (suspect is cleared when the child is
+// not alive).  Every replay is counted (C10Transients) and reported in the run's statistics.
+var C10Transients = map[string]int{}
+
 func c10ContainOp(kind string, a []string) string {
 	var ans string
 	for attempt := 0; attempt < 3; attempt++ {
 		var suspect bool
 		ans, suspect = c10ContainOnce(kind, a)
-		if !suspect {
+		if !suspect || strings.Contains(ans, "alive=0") {
 			break
 		}
+		C10Transients[kind]++
 		time.Sleep(300 * time.Millisecond)
 	}
 	return ans
@@ -513,13 +523,16 @@ func c10ContainOnce(kind string, a []string) (result string, suspect bool) {
 		return c
 	}
 	gSeen := 0
+	bgSent := 0
+	var bgDone chan struct{}
+	verify := ""
 	for _, tok := range a[1:] {
 		if fail != "" {
 			break
 		}
 		head, hx, _ := strings.Cut(tok, ":")
 		var data []byte
-		if hx != "" {
+		if hx != "" && head != "V" {
 			data = Unhx(hx)
 		}
 		switch {
@@ -545,6 +558,57 @@ func c10ContainOnce(kind string, a []string) (result string, suspect bool) {
 			}
 			c.c.Write(data)
 			time.Sleep(300 * time.Microsecond)
+		case head == "C":
+			// the well-behaved session streams these frames from its own goroutine while the script goes on
+			c := open(0)
+			if c == nil {
+				break
+			}
+			frames, _ := SplitFrames(data)
+			bgSent = len(frames)
+			bgDone = make(chan struct{})
+			go func() {
+				defer close(bgDone)
+				for _, f := range frames {
+					c.c.Write(f)
+					time.Sleep(150 * time.Microsecond)
+				}
+			}()
+		case head == "J":
+			// join the stream: every frame of it must have been answered
+			c := open(0)
+			if c == nil || bgDone == nil {
+				break
+			}
+			<-bgDone
+			d, _, ok := c.waitFor(func(b []byte) bool { return len(b) > gSeen && c10WholeFrames(b[gSeen:], bgSent) }, ContainWaitAnswer)
+			if !ok {
+				g = append(g, "none")
+				suspect = true
+			} else {
+				g = append(g, Hx(d[gSeen:]))
+			}
+			gSeen = len(d)
+		case head == "V":
+			// verify a file the default file handler must have stored for the well-behaved upload: close that
+			// connection (SuccessQuit), then path-hex:content-hex relative to the server's working directory
+			if c, ok := conns[0]; ok {
+				c.close(false)
+				delete(conns, 0)
+			}
+			path, content, _ := strings.Cut(hx, ":")
+			want := Unhx(content)
+			full := filepath.Join(child.Cwd, string(Unhx(path)))
+			verify = "0"
+			for t0 := time.Now(); time.Since(t0) < 3*time.Second; time.Sleep(2 * time.Millisecond) {
+				if b, err := os.ReadFile(full); err == nil && bytes.Equal(b, want) {
+					verify = "1"
+					break
+				}
+			}
+			if verify == "0" {
+				suspect = true
+			}
 		case head == "W":
 			time.Sleep(60 * time.Millisecond) // let the server finish the teardown of a connection just closed
 		case head == "A":
@@ -580,7 +644,7 @@ func c10ContainOnce(kind string, a []string) (result string, suspect bool) {
 				delete(conns, k)
 				status[k] = "gone"
 			}
-		case head[0] == 'P':
+		case head[0] == 'P' || head[0] == 'Q': // Q = a probe whose connection the generator expects to be refused
 			k := atoi(head[1:])
 			c := open(k)
 			if c == nil {
@@ -604,7 +668,7 @@ func c10ContainOnce(kind string, a []string) (result string, suspect bool) {
 				switch {
 				case closed:
 					status[k] = "closed"
-					if !closing {
+					if !closing && head[0] != 'Q' {
 						suspect = true // a reset not explained by the bytes sent (or a refused key): believed only when it persists
 					}
 				case ok:
@@ -661,6 +725,9 @@ func c10ContainOnce(kind string, a []string) (result string, suspect bool) {
 		fmt.Fprintf(&sb, " k%d=%s", k, status[k])
 	}
 	fmt.Fprintf(&sb, " a=%s", acc)
+	if verify != "" {
+		fmt.Fprintf(&sb, " v=%s", verify)
+	}
 	if !alive {
 		fmt.Fprintf(&sb, " death=%q", child.Death())
 	}
